@@ -49,7 +49,8 @@ check_call(const char *shape, unsigned n, bool hasres, int in_class, bool in_agg
 		x_cls(in_class, in_aggret ? &c_ty : 0);
 		x_ch(' ');
 	}
-	x_lit("call ");
+	x_ev(OE_STR, 0, instname[ICALL]);   /* "call": the name table is checked by QBE.emit.inst */
+	x_ch(' ');
 	x_val(&c_fn);
 	x_ch('(');
 	for (consumed = 0; consumed < n && shape[consumed] != 'X'; consumed++) {
@@ -69,6 +70,6 @@ check_call(const char *shape, unsigned n, bool hasres, int in_class, bool in_agg
 	__CPROVER_assert(oe_n <= OE_MAX && xe_n <= OE_MAX, "recorder large enough");
 	__CPROVER_assert(ret == &c_seq[1 + consumed], "the call consumes exactly its arg/marker pseudo-instructions, never past the end of the block");
 	__CPROVER_assert(oe_n >= 4 && oe[oe_n - 1].v == '\n' && oe[oe_n - 2].v == ')', "the argument list is closed and the line ends");
-	__CPROVER_assert(IMP(!hasres, oe[1].k == OE_CH && oe[1].v == 'c'), "a call whose value is not used/void has no `%res =` part");
+	__CPROVER_assert(IMP(!hasres, oe[1].k == OE_STR && oe[1].p == instname[ICALL]), "a call whose value is not used/void has no `%res =` part");
 	__CPROVER_assert(oe_same(), "the line is exactly `\\t[%res =abity ]call VAL(item, item, ...)\\n`, items separated by commas only BETWEEN them");
 }
